@@ -197,9 +197,100 @@ func (c *c09Run) quiesce() {
 			break
 		}
 	}
+	// Elements of an answered batch that the monitor has not asked about individually: in the current
+	// code that only happens while checkLoop is between two calls. Give it time before concluding that
+	// they were skipped (the pre-fix code does skip them).
+	if n, busy, since := c.rec.Unprocessed(); n > 0 && !busy {
+		lim := since.Add(time.Duration(400*c.slow) * time.Millisecond)
+		for time.Now().Before(lim) {
+			time.Sleep(2 * time.Millisecond)
+			if n2, busy2, _ := c.rec.Unprocessed(); n2 == 0 || busy2 {
+				c.quiesce()
+				return
+			}
+		}
+	}
 	c.rec.Flush()
 	c.noteDrain()
+	c.awaitInternal()
 	c.internalRuns()
+}
+
+// awaitInternal waits (with a deadline) until the client's own waiter goroutines of the transactions
+// whose outcome has been handed over have updated the pending list: they run asynchronously and are
+// not tracked by the recorder. On the deadline the state is taken as it is.
+func (c *c09Run) awaitInternal() {
+	deadline := time.Now().Add(time.Duration(2500*c.slow) * time.Millisecond)
+	for {
+		c.rec.mu.Lock()
+		n := len(c.rec.resolved)
+		c.rec.mu.Unlock()
+		if n == 0 {
+			return
+		}
+		var late []common.Hash
+		for _, ti := range c.client.PendingTxns() {
+			h := common.HexToHash(ti.Hash)
+			c.rec.mu.Lock()
+			if c.rec.resolved[h] {
+				late = append(late, h)
+			}
+			c.rec.mu.Unlock()
+		}
+		if len(late) == 0 {
+			return
+		}
+		if time.Now().After(deadline) {
+			c.rec.mu.Lock()
+			for _, h := range late {
+				delete(c.rec.resolved, h) // judged as observed; do not wait for it again
+			}
+			c.rec.mu.Unlock()
+			return
+		}
+		time.Sleep(2 * time.Millisecond)
+	}
+}
+
+// olderWaiters reports whether some waiter is registered below the confirmed nonce c.
+func (c *c09Run) olderWaiters(nonce uint64) bool {
+	c.tm.mtx.Lock()
+	defer c.tm.mtx.Unlock()
+	for k, v := range c.tm.waitMap {
+		if k < nonce && len(v) > 0 {
+			return true
+		}
+	}
+	return false
+}
+
+// pollAndSettle releases one parked BlockNumber call and waits for the iteration, and for the check it
+// hands over, to get going: a check that must ask the node is awaited with a deadline, not a sleep.
+func (c *c09Run) pollAndSettle() {
+	c.rec.mu.Lock()
+	idle := c.rec.actChk == 0 && len(c.rec.pendEl) == 0
+	begun := c.rec.batchBegun
+	c.rec.nonceOK = false
+	c.rec.mu.Unlock()
+	c.node.release(c09KBlock)
+	c.quiesce()
+	c.rec.mu.Lock()
+	ok, nv := c.rec.nonceOK, c.rec.nonceVal
+	c.rec.mu.Unlock()
+	if idle && ok && !c.exited() && c.olderWaiters(nv) {
+		deadline := time.Now().Add(time.Duration(2500*c.slow) * time.Millisecond)
+		for time.Now().Before(deadline) {
+			c.rec.mu.Lock()
+			b := c.rec.batchBegun
+			c.rec.mu.Unlock()
+			if b > begun {
+				break
+			}
+			time.Sleep(2 * time.Millisecond)
+		}
+		c.quiesce()
+	}
+	c.sampleBusy()
 }
 
 // internalRuns logs the (by now finished) runs of the client's own waiter goroutines.
@@ -455,9 +546,7 @@ func (c *c09Run) step(s c09Step) {
 				return
 			}
 		}
-		c.node.release(c09KBlock)
-		c.quiesce()
-		c.sampleBusy()
+		c.pollAndSettle()
 	case "tick":
 		// a poll triggered by the ticker alone: no new-transaction signal is given
 		if c.exited() {
@@ -466,9 +555,7 @@ func (c *c09Run) step(s c09Step) {
 		if !c.awaitParked(c09KBlock, time.Duration(900*c.slow)*time.Millisecond) {
 			return
 		}
-		c.node.release(c09KBlock)
-		c.quiesce()
-		c.sampleBusy()
+		c.pollAndSettle()
 	case "rel":
 		if s.K == c09KReceipt && c.in.Transport == "rpc" && c.closing {
 			return
@@ -564,7 +651,8 @@ func c09RunCase(in c09In, slow int, emit func(string, interface{})) c09Obs {
 		inner = &c09MockEVM{n: c.node}
 	}
 	defer cleanup()
-	c.rec = &c09Rec{inner: inner, node: c.node, logf: c.log, hid: c.hid, lastAct: time.Now()}
+	c.rec = &c09Rec{inner: inner, node: c.node, logf: c.log, hid: c.hid, lastAct: time.Now(),
+		resolved: map[common.Hash]bool{}, stopped: func() bool { return c.tm != nil && c.exited() }}
 	key, _ := crypto.HexToECDSA("4c0883a69102937d6231471b5dbb6204fe5129617082792ae468d01a3f362318")
 	logger := slog.New(slog.NewTextHandler(io.Discard, nil))
 	var evmForClient EVM = c.rec
@@ -937,6 +1025,20 @@ func c09Directed(tr string) []struct {
 			S("watch", 2, 0, 0, ""), S("mine", 1, 0, 0, ""), S("mine", 2, 1, 0, ""), S("block", 0, 1, 2, ""), S("poll", 0, 0, 0, ""), S("pend", 0, 0, 0, "")),
 		mk("failed-receipt-trace-ok", 0, S("trace", 0, 1, 0, ""), S("send", 0, 0, 0, ""), S("watch", 1, 0, 0, ""), S("mine", 1, 0, 0, ""),
 			S("err", 1, 1, 0, ""), S("block", 0, 1, 1, ""), S("poll", 0, 0, 0, ""), S("pend", 0, 0, 0, "")),
+		// the node truncates the answer to a batch: three mined transactions, one element missing, one
+		// without result -- each is asked again individually and gets its receipt, none is "cancelled"
+		mk("batch-truncated-mined", 0, S("send", 0, 0, 0, ""), S("send", 0, 1, 0, ""), S("send", 0, 2, 0, ""), S("watch", 1, 0, 0, ""),
+			S("watch", 2, 0, 0, ""), S("watch", 3, 0, 0, ""), S("mine", 1, 1, 0, ""), S("mine", 2, 1, 0, ""), S("mine", 3, 0, 0, ""),
+			S("err", 2, 3, 0, ""), S("err", 3, 4, 0, ""), S("block", 0, 1, 3, ""), S("poll", 0, 0, 0, ""), S("pend", 0, 0, 0, "")),
+		// the confirmed nonce goes back (reorg) after a round whose receipt batch failed: a transaction
+		// whose nonce is not below the CURRENT confirmed nonce must not be looked up, let alone cancelled
+		mk("nonce-reorg-after-failed-batch", 0, S("send", 0, 5, 0, ""), S("watch", 1, 0, 0, ""), S("watchraw", 1, 0, 0, ""),
+			S("fail", 0, 1, 0, c09KBatch), S("block", 0, 1, 6, ""), S("poll", 0, 0, 0, ""), S("fail", 0, 0, 0, c09KBatch),
+			S("block", 0, 2, 5, ""), S("poll", 0, 0, 0, ""), S("pend", 0, 0, 0, ""), S("mine", 1, 1, 0, ""), S("block", 0, 3, 6, ""),
+			S("poll", 0, 0, 0, ""), S("pend", 0, 0, 0, "")),
+		mk("nonce-reorg-plain", 0, S("send", 0, 2, 0, ""), S("watch", 1, 0, 0, ""), S("hold", 0, 1, 0, c09KNonce), S("block", 0, 1, 3, ""),
+			S("poll", 0, 0, 0, ""), S("block", 0, 1, 2, ""), S("rel", 0, 0, 0, c09KNonce), S("pend", 0, 0, 0, ""), S("block", 0, 2, 2, ""),
+			S("tick", 0, 0, 0, ""), S("pend", 0, 0, 0, ""), S("mine", 1, 1, 0, ""), S("block", 0, 3, 3, ""), S("tick", 0, 0, 0, ""), S("pend", 0, 0, 0, "")),
 		mk("close-idle", 0, S("send", 0, 0, 0, ""), S("watch", 1, 0, 0, ""), S("watchraw", 1, 0, 0, ""), S("pend", 0, 0, 0, ""),
 			S("hold", 0, 1, 0, c09KBatch), S("mine", 1, 1, 0, ""), S("block", 0, 1, 1, ""), S("poll", 0, 0, 0, ""), S("close", 0, 0, 0, ""),
 			S("watch", 1, 0, 0, ""), S("rel", 0, 0, 0, c09KBatch)),
@@ -1079,7 +1181,7 @@ func c09Random(r *rand.Rand, tr string) c09In {
 		case x < 67:
 			add(c09St("unmine", 1+r.Intn(sent), 0, 0, ""))
 		case x < 73:
-			add(c09St("err", 1+r.Intn(sent), uint64(r.Intn(4)), 0, ""))
+			add(c09St("err", 1+r.Intn(sent), uint64(r.Intn(5)), 0, ""))
 		case x < 77:
 			add(c09St("fail", 0, uint64(r.Intn(2)), 0, []string{c09KBlock, c09KNonce, c09KBatch}[r.Intn(3)]))
 		case x < 85:
